@@ -1,0 +1,4 @@
+// Package verifhook provides fault- and schedule-injection points used by the
+// external verification machinery. Without the "verif" build tag every point
+// is an inlinable no-op.
+package verifhook
